@@ -154,7 +154,32 @@ main(void)
     struct Camera* cam = simcam_make_camera((enum BasicDeviceKind)kind);
     VASSUME(cam != 0);
     struct SimulatedCamera* self = containerof(cam, struct SimulatedCamera, camera);
-#if MODE == 1
+#if MODE == 3
+    /* re-configuration as an induction step: an ARBITRARY earlier configuration (any power-of-two
+     * binning, any clamped shape, any type) whose buffers satisfy the size invariant, then one set */
+    {
+        uint8_t pk = ND(uint8_t);
+        VASSUME(pk <= 7);
+        uint32_t pb = 1u << pk;
+        uint32_t pw = ND(uint32_t), ph = ND(uint32_t);
+        VASSUME(pw >= 1 && ph >= 1 && pw <= 8192u / pb && ph <= 8192u / pb);
+        uint8_t pty = ND(uint8_t);
+        VASSUME(pty < SampleTypeCount);
+        self->properties.binning = (uint8_t)pb;
+        self->properties.shape.x = pw; self->properties.shape.y = ph;
+        self->properties.pixel_type = (enum SampleType)pty;
+        self->im.shape.dims.channels = 1; self->im.shape.dims.width = pw; self->im.shape.dims.height = ph; self->im.shape.dims.planes = 1;
+        self->im.shape.strides.channels = 1; self->im.shape.strides.width = 1; self->im.shape.strides.height = pw; self->im.shape.strides.planes = (int64_t)pw * ph;
+        self->im.shape.type = (enum SampleType)pty;
+        size_t need = (((((size_t)pb * pw) * ((size_t)pb * ph) * bpt((enum SampleType)pty)) + 31) >> 5) << 5;
+        size_t s1 = ND(size_t), s2 = ND(size_t);
+        VASSUME(s1 >= need && s2 >= need); /* INV: both buffers hold the full-resolution image of the configuration in effect */
+        self->im.frame_data = verif_realloc(0, s1);
+        self->im.render_data = verif_realloc(0, s2);
+    }
+#define NSET 1
+#endif
+#if MODE == 1 || MODE == 3
     for (int i = 0; i < NSET; ++i) {
         uint8_t k = ND(uint8_t);
         VASSUME(k <= 8);
